@@ -179,7 +179,7 @@ def build(repo=None):
             ob.setdefault("kind", "vc")
             ob["function"] = fn_label
             c = ob["clause"]
-            ob["serves"] = ([c.split(":")[0]] + (["C12"] if c[:3] == "C05" else [])) if c[:3] in ("C05", "C07", "C13", "C19", "C02") else None  # C05 stack-balance clauses are also C12's restore obligations
+            ob["serves"] = ([c.split(":")[0]] + (["C12", "C09"] if c[:3] == "C05" else [])) if c[:3] in ("C05", "C07", "C13", "C19", "C02") else None  # C05 stack-balance clauses are also C12's restore obligations
             if ob["serves"] is None:
                 ob.pop("serves")
             obligations.append(ob)
@@ -391,7 +391,39 @@ def build(repo=None):
     finish(st.obl, "jaxtyped/<old-style>/wrapped_fn")
 
     # ================================================================== context manager
-    for meth in ("__enter__", "__exit__"):
+    from ..source import NotFound
+    from ..stmts import _split_contextmanager
+
+    try:
+        mod.func("_JaxtypingContext.__enter__")
+        cm_class = True
+    except NotFound:
+        cm_class = False
+    if not cm_class:
+        # jaxtyped("context") written as a @contextmanager generator function: same contract, stated over its three parts
+        cands = [b for b in mod.tree.body if isinstance(b, ast.FunctionDef) and any("contextmanager" in ast.unparse(d) for d in b.decorator_list)
+                 and any(isinstance(c, ast.Call) and getattr(c.func, "id", "") == "push_shape_memo" for c in ast.walk(b))]
+        if len(cands) != 1 or _split_contextmanager(cands[0]) is None:
+            raise NotFound("_JaxtypingContext (neither a class with __enter__/__exit__ nor a single-yield @contextmanager that pushes a frame)")
+        cmf = cands[0]
+        functions.append({"qualname": f"jaxtyping._decorator.{cmf.name}", "sha256_16": mod.sha(cmf), "lines": [cmf.lineno, cmf.end_lineno]})
+        pre, fin, post = _split_contextmanager(cmf)
+        eng = base_engine(mod)
+        st = State()
+        st.ghost.update(stack=[], underflow=False, pushes=0, rolled_back=False)
+        for s1, o in eng.run(pre, st):
+            paths += 1
+            eng.oblige(s1, "C05:context-enter-pushes-exactly-one-frame", z3.BoolVal(o.kind == "normal" and len(s1.ghost["stack"]) == 1 and s1.ghost["pushes"] == 1))
+            if o.kind != "normal":
+                continue
+            for how, stmts_ in (("block-returns", list(fin) + list(post)), ("block-raises", list(fin))):
+                s2 = s1.clone()
+                s2.path.append(how)
+                for s3, o3 in eng.run(stmts_, s2):
+                    paths += 1
+                    eng.oblige(s3, "C05:context-exit-pops-its-frame-for-every-exception-state", z3.BoolVal(o3.kind == "normal" and s3.ghost["stack"] == [] and not s3.ghost["underflow"]), how=z3.StringVal(how))
+        finish(st.obl, cmf.name)
+    for meth in (("__enter__", "__exit__") if cm_class else ()):
         f = mod.func(f"_JaxtypingContext.{meth}")
         functions.append({"qualname": f"jaxtyping._decorator._JaxtypingContext.{meth}", "sha256_16": mod.sha(f), "lines": [f.lineno, f.end_lineno]})
         eng = base_engine(mod)
